@@ -209,6 +209,17 @@ def hand_cases():
         {"tid": 40, "parent": None, "recs": [[1000, E, 0, 0], [1100, E, 1, 1], [1200, E, 2, 3], [1300, X, 2, 3], [1400, X, 1, 1], [1500, X, 0, 0]]},
         {"tid": 50, "parent": 0, "recs": [[1200, X, 2, 3], [1210, E, 2, 2], [1220, X, 2, 2], [1230, X, 1, 1], [1240, E, 1, 2], [1250, E, 2, 1]]},
         {"tid": 60, "parent": 1, "recs": [[1300, E, 3, 2], [1310, X, 3, 2]]}]})
+    # regression (fix: fstack_account_time sets the inherited depth of a child whose parent is not selected at
+    # once): the selected child 31 of the unselected 30 starts with the ENTRY of vfork(); its own child 32 must
+    # continue at the depth vfork() is displayed at (found by the thorough tier, replay C06-ee965118fba4)
+    cs.append({"names": ["main", "a", "b", "fork", "vfork"], "forks": [3, 4], "max_stack": 1024, "illformed": False,
+               "variants": [{"fold": False, "sel": [1, 2], "fields": ["duration", "tid", "addr", "time", "delta", "elapsed", "module"],
+                             "column": None, "newline": False},
+                            {"fold": True, "sel": [1, 2], "fields": ["duration", "tid"], "column": None, "newline": False}],
+               "tasks": [
+        {"tid": 30, "parent": None, "recs": [[1000, E, 0, 0], [1010, E, 1, 1], [1020, E, 2, 3], [1030, X, 2, 3], [1090, X, 1, 1], [1100, X, 0, 0]]},
+        {"tid": 31, "parent": 0, "recs": [[1025, E, 3, 4], [1040, X, 3, 4], [1050, X, 2, 3], [1060, X, 1, 1]]},
+        {"tid": 32, "parent": 1, "recs": [[1035, X, 3, 4], [1045, E, 3, 2], [1046, X, 3, 2], [1055, X, 2, 3]]}]})
     # durations at the unit boundaries
     cs.append({"names": ["main", "a"], "forks": [], "max_stack": 2, "illformed": False, "tasks": [
         {"tid": 7, "parent": None, "recs": [[1000, E, 0, 0], [1000, E, 1, 1], [1999, X, 1, 1], [2000, E, 1, 1], [3000, X, 1, 1],
@@ -261,6 +272,7 @@ def gen_variants(rng, case, thorough):
         vs += extra
     else:
         vs += rng.sample(extra, 2)
+    vs += [dict(v) for v in case.get("variants", [])]      # variants a hand-written / regression case insists on
     for v in vs:
         v["fields"] = [f for f in FIELD_ORDER if f in v["fields"]]
     return vs
